@@ -378,3 +378,18 @@ func TestVerifC13RegressD4ExclusiveMove(t *testing.T) {
 		}
 	}
 }
+
+// The exclusive rule at the container: registering a key again with the value it already
+// has makes it the most recent registrant of that value.
+func TestVerifC13RegressExclusiveReputContainer(t *testing.T) {
+	logx.Disable()
+	h := newContainerHarness(true, 1)
+	for _, msg := range []string{h.put("k0", "v0"), h.put("k1", "v0"), h.put("k0", "v0"), h.del("k1")} {
+		if msg != "" {
+			t.Fatalf("%s\nhistory: %s", msg, h.log.String())
+		}
+	}
+	if got := h.c.getValues(); len(got) != 1 || got[0] != "v0" {
+		t.Fatalf("Values()=%v, want [v0]\nhistory: %s", got, h.log.String())
+	}
+}
